@@ -15,7 +15,7 @@
                measured from the Go runtime by the harness) reproduces every observation of the session
    c10_is    : every observed outcome is the outcome the SPECIFICATION assigns to (program, arguments,
                consumption) alone - sp_prog, no heap, no history *)
-From P2 Require Import Base.Prelude Heap.ListHeap Heap.FuncState.
+From P2 Require Import Base.Prelude Heap.ListHeap Heap.MapHeap Heap.FuncState Heap.MapState.
 Local Open Scope nat_scope.
 
 Inductive rep := R3 (present : bool) (len cap : nat).
@@ -139,12 +139,26 @@ Definition body_nofold (b : body) : bool := match b with BZ e => z_nofold e | BL
 Definition event_ok (e : event) : bool :=
   match e with EGen p => body_nofold (p_body p) | _ => true end.
 
-Definition c10_case := (N * list event * list xobs)%type.
-Definition c10_id (c : c10_case) : N := fst (fst c).
+(* an evaluation of a program of the MAP fragment (Heap/MapState.v) that took place somewhere in the session:
+   program, arguments, observed outcome (None = error).  The model answers from a fresh Generate: that the history of
+   the session does not matter is C10_map_eval_history_independent; if the implementation depended on it, it shows here *)
+Inductive mcase := MCase (p : mprog) (args : list Z) (obs : option Z).
+Arguments MCase p args%Z obs.
+
+Definition oz_eqb (a b : option Z) : bool :=
+  match a, b with Some x, Some y => Z.eqb x y | None, None => true | _, _ => false end.
+
+Definition mcase_im (c : mcase) : bool :=
+  match c with MCase p args obs => match meval_prog p args with Some r => oz_eqb r obs | None => false end end.
+Definition mcase_is (c : mcase) : bool :=
+  match c with MCase p args obs => oz_eqb (sp_mprog p args) obs end.
+
+Definition c10_case := (N * list event * list xobs * list mcase)%type.
+Definition c10_id (c : c10_case) : N := fst (fst (fst c)).
 
 Definition c10_im (cp : caps) (c : c10_case) : bool :=
-  let hist := snd (fst c) in
-  forallb event_ok hist && all2 xobs_eqb (model_session cp new_generator hist) (snd c).
+  let hist := snd (fst (fst c)) in
+  forallb event_ok hist && all2 xobs_eqb (model_session cp new_generator hist) (snd (fst c)) && forallb mcase_im (snd c).
 
 (* specification side: the programs generated so far, in order; every observed outcome is sp_prog's *)
 Fixpoint spec_session (progs : list prog) (hist : list event) (obs : list xobs) : bool :=
@@ -161,7 +175,7 @@ Fixpoint spec_session (progs : list prog) (hist : list event) (obs : list xobs) 
   | _, _ => false
   end.
 
-Definition c10_is (c : c10_case) : bool := spec_session [] (snd (fst c)) (snd c).
+Definition c10_is (c : c10_case) : bool := spec_session [] (snd (fst (fst c))) (snd (fst c)) && forallb mcase_is (snd c).
 
 (* capacity policies from measured tables (index = number of elements; beyond the table: exactly n) *)
 Definition caps_of_tables (ev ap : list nat) : caps :=
